@@ -10,6 +10,7 @@ import (
 	"math/big"
 
 	"github.com/ethereum/go-ethereum/common"
+	"github.com/ethereum/go-ethereum/core/types"
 	"github.com/ethereum/go-ethereum/rlp"
 
 	"github.com/vechain/thor/v2/muxdb"
@@ -17,6 +18,7 @@ import (
 	"github.com/vechain/thor/v2/state"
 	"github.com/vechain/thor/v2/thor"
 	"github.com/vechain/thor/v2/trie"
+	"github.com/vechain/thor/v2/tx"
 
 	"verifharness/internal/kvrec"
 )
@@ -205,18 +207,31 @@ func (d *dbh) nextVer() trie.Version {
 	return trie.Version{Major: 1 + c/4, Minor: c % 4}
 }
 
-type world struct {
-	d       *dbh
-	st      *state.State
-	useSDB  bool
-	sdb     *statedb.StateDB // non-nil: mutate through runtime/statedb where it has the operation
-	stage   *state.Stage
-	stRoot  trie.Root
-	commits []trie.Root
+// one live State object (with its statedb and its last Stage)
+type handle struct {
+	st     *state.State
+	sdb    *statedb.StateDB // non-nil: mutate through runtime/statedb where it has the operation
+	stage  *state.Stage
+	stRoot trie.Root
 }
 
+type world struct {
+	d       *dbh
+	useSDB  bool
+	handle                  // the current State object
+	parked  map[int]*handle // other live State objects on the same database (sibling states)
+	commits []trie.Root     // shared: what was committed to the database
+	opens   int
+}
+
+// open replaces the current State object by a new one from root: state.New, or Checkout of the State being replaced
 func (w *world) open(root trie.Root) {
-	w.st = state.New(w.d.db, root)
+	w.opens++
+	if w.st != nil && w.opens%2 == 0 {
+		w.st = w.st.Checkout(root)
+	} else {
+		w.st = state.New(w.d.db, root)
+	}
 	w.sdb = nil
 	if w.useSDB {
 		w.sdb = statedb.New(w.st)
@@ -224,12 +239,44 @@ func (w *world) open(root trie.Root) {
 	w.stage = nil
 }
 
-type stRead struct{ k, raw, b32 int }
+// fork parks the current State object under id cur and opens another one from root
+func (w *world) fork(cur int, root trie.Root) {
+	if w.parked == nil {
+		w.parked = map[int]*handle{}
+	}
+	h := w.handle
+	w.parked[cur] = &h
+	w.handle = handle{}
+	w.open(root)
+}
+
+// switchTo parks the current State object under cur and continues with the parked one
+func (w *world) switchTo(cur, to int) {
+	h := w.handle
+	w.handle = *w.parked[to]
+	delete(w.parked, to)
+	w.parked[cur] = &h
+}
+
+// siblingVers: two versions with the same major number and the conflict numbers 0 and 1 (two blocks at one height)
+func (d *dbh) siblingVers() (trie.Version, trie.Version) {
+	for d.verCtr%4 != 0 {
+		d.verCtr++
+	}
+	a := d.nextVer()
+	b := d.nextVer()
+	return a, b
+}
+
+type stRead struct{ k, raw, b32, dec int }
 
 type accRead struct {
 	a, bal, en, qt, qs, eg, ms, cd, ch int
 	ex                                 bool
 	st                                 []stRead
+	viaSDB                             bool // the next four were read through runtime/statedb
+	sx, sm, hs                         bool // Exist, Empty, HasSuicided
+	cs                                 int  // GetCodeSize, as the id of the code with that size
 }
 
 func (w *world) read(a int, keys []int, qt, qs int) (r accRead, err error) {
@@ -277,18 +324,104 @@ func (w *world) read(a int, keys []int, qt, qs int) (r accRead, err error) {
 		} else if v, err = w.st.GetStorage(ad, keyOf(k)); err != nil {
 			return
 		}
-		r.st = append(r.st, stRead{k, decRaw(raw), decB32(v)})
+		// third read path: DecodeStorage (what every builtin uses)
+		dec := -1
+		if err = w.st.DecodeStorage(ad, keyOf(k), func(b []byte) error { dec = decRaw(b); return nil }); err != nil {
+			return
+		}
+		r.st = append(r.st, stRead{k, decRaw(raw), decB32(v), dec})
+	}
+	if w.sdb != nil {
+		ca := common.Address(ad)
+		r.viaSDB, r.sx, r.sm, r.hs = true, w.sdb.Exist(ca), w.sdb.Empty(ca), w.sdb.HasSuicided(ca)
+		r.cs = decCodeSize(w.sdb.GetCodeSize(ca))
 	}
 	return
+}
+
+func commonAddr(a int) common.Address { return common.Address(addrOf(a)) }
+
+func decCodeSize(n int) int {
+	if n == 0 {
+		return 0
+	}
+	for c := 1; c <= nTab; c++ {
+		if len(codeOf(c)) == n {
+			return c
+		}
+	}
+	return -1
 }
 
 func (r accRead) json() map[string]any {
 	st := make([]any, 0, len(r.st))
 	for _, s := range r.st {
-		st = append(st, []int{s.k, s.raw, s.b32})
+		st = append(st, []int{s.k, s.raw, s.b32, s.dec})
 	}
-	return map[string]any{"a": r.a, "bal": r.bal, "en": r.en, "qt": r.qt, "qs": r.qs, "eg": r.eg, "ms": r.ms, "cd": r.cd,
+	m := map[string]any{"a": r.a, "bal": r.bal, "en": r.en, "qt": r.qt, "qs": r.qs, "eg": r.eg, "ms": r.ms, "cd": r.cd,
 		"ch": r.ch, "ex": r.ex, "st": st}
+	if r.viaSDB {
+		m["sx"], m["sm"], m["hs"], m["cs"] = r.sx, r.sm, r.hs, r.cs
+	}
+	return m
+}
+
+// ---- statedb side journal: logs (events, transfers) and refund
+
+func logOf(id int) *types.Log {
+	return &types.Log{Address: common.Address(addrOf(id)), Topics: []common.Hash{common.Hash(keyOf(id + 7))}, Data: be4(id)}
+}
+func transferOf(id int) *tx.Transfer {
+	return &tx.Transfer{Sender: addrOf(id), Recipient: addrOf(id + 1), Amount: big.NewInt(int64(id))}
+}
+func (w *world) addLog(id int)      { w.sdb.AddLog(logOf(id)) }
+func (w *world) addTransfer(id int) { w.sdb.AddTransfer(transferOf(id)) }
+func (w *world) addRefund(g int)    { w.sdb.AddRefund(uint64(g)) }
+
+type sideRead struct {
+	ev, tr [][]int // <<kind, id>> pairs as the specification keeps them
+	rf     int
+}
+
+func (w *world) readSide() sideRead {
+	evs, trs := w.sdb.GetLogs()
+	r := sideRead{ev: [][]int{}, tr: [][]int{}}
+	for _, e := range evs {
+		id := -1
+		if len(e.Data) == 4 {
+			id = int(binary.BigEndian.Uint32(e.Data))
+			want := logOf(id)
+			if e.Address != thor.Address(want.Address) || len(e.Topics) != 1 || e.Topics[0] != thor.Bytes32(want.Topics[0]) {
+				id = -1
+			}
+		}
+		r.ev = append(r.ev, []int{1, id})
+	}
+	for _, t := range trs {
+		id := decBig(t.Amount)
+		if id >= 0 {
+			if want := transferOf(id); t.Sender != want.Sender || t.Recipient != want.Recipient {
+				id = -1
+			}
+		}
+		r.tr = append(r.tr, []int{2, id})
+	}
+	rf := w.sdb.GetRefund()
+	r.rf = -1
+	if rf < 1<<31 {
+		r.rf = int(rf)
+	}
+	return r
+}
+func (s sideRead) json() map[string]any { return map[string]any{"ev": s.ev, "tr": s.tr, "rf": s.rf} }
+
+// buildStorageRoot: State.BuildStorageTrie(a).Hash()
+func (w *world) buildStorageRoot(a int) (thor.Bytes32, error) {
+	t, err := w.st.BuildStorageTrie(addrOf(a))
+	if err != nil {
+		return thor.Bytes32{}, err
+	}
+	return t.Hash(), nil
 }
 
 // ---- mutations (through statedb when the run says so and statedb has the operation)
@@ -332,7 +465,10 @@ func (w *world) setStorage(a, k, v int) {
 	w.st.SetStorage(addrOf(a), keyOf(k), scalarOf(v))
 }
 func (w *world) setRawStorage(a, k, v int) { w.st.SetRawStorage(addrOf(a), keyOf(k), rawOf(v)) }
-func (w *world) del(a int)                 { w.st.Delete(addrOf(a)) }
+func (w *world) encodeStorage(a, k, v int) error {
+	return w.st.EncodeStorage(addrOf(a), keyOf(k), func() ([]byte, error) { return rawOf(v), nil })
+}
+func (w *world) del(a int) { w.st.Delete(addrOf(a)) }
 
 // suicide: statedb deletes the account only if it exists
 func (w *world) suicide(a int) bool { return w.sdb.Suicide(common.Address(addrOf(a))) }
@@ -349,8 +485,8 @@ func (w *world) revertTo(r int) {
 	}
 	w.st.RevertTo(r)
 }
-func (w *world) doStage() (thor.Bytes32, trie.Version, error) {
-	ver := w.d.nextVer()
+func (w *world) doStage() (thor.Bytes32, trie.Version, error) { return w.doStageAt(w.d.nextVer()) }
+func (w *world) doStageAt(ver trie.Version) (thor.Bytes32, trie.Version, error) {
 	stg, err := w.st.Stage(ver)
 	if err != nil {
 		return thor.Bytes32{}, ver, err
